@@ -614,6 +614,9 @@ def gen_logweights(g, N, ties=True):
         m = max(lw)
         lw[i] = m
         lw[j] = m                      # exact tie for the maximum (first index wins in the code)
+    if N >= 8 and r.random() < 0.5:
+        j = lw.index(max(lw))            # the maximum in the last position (beyond any 4/8/16-wide batch)
+        lw[j], lw[N - 1] = lw[N - 1], lw[j]
     if style == "zero" and N >= 2:
         lw[r.randrange(N)] = -math.inf  # a particle of weight zero
         if all(x == -math.inf for x in lw):
@@ -637,6 +640,9 @@ def gen_extract(g, lin, circ, five):
             c["tp"][j] = list(c["tp"][i])
         if r.random() < 0.05:
             c["lik"] = [0.0] * N
+        elif N >= 8 and r.random() < 0.5:
+            c["lik"][N - 1] = 1e3        # the best score in the last position
+            c["tp"][N - 1] = [1.0 + x for x in c["tp"][N - 1]]
     return c
 
 
@@ -744,8 +750,8 @@ def hb_random(g, n):
         locked = o["mf"] and dim != 0     # a moved-from buffer of a non-empty state cannot be read back once it stores something
         u = r.random()
         if u < 0.50:
-            if locked and o["w"] != 0:
-                continue
+            if locked:
+                continue                  # whether a moved-from buffer stores anything is unspecified
             k += 1
             ops.append(("A",) + ((el(k),) if dim else ()))
             o["n"] = min(o["n"] + 1, o["w"])
